@@ -16,6 +16,7 @@ pub struct Corpus {
     pub ie_into: Vec<String>,
     pub ie_from: Vec<String>,
     pub gen_rules: Vec<String>,
+    pub gen_pairs: Vec<(String, String)>,
 }
 
 pub fn load_corpus() -> Corpus {
@@ -24,10 +25,12 @@ pub fn load_corpus() -> Corpus {
     let strs = |x: &Value| x.as_array().map(|a| a.iter().map(|s| s.as_str().unwrap().to_string()).collect::<Vec<_>>()).unwrap_or_default();
     let ie = c["ie"].as_array().unwrap().iter().map(|f| f["groups"].as_array().unwrap().iter().map(|g| RuleGroup {
         name: g["name"].as_str().unwrap().into(), rule: strs(&g["rule"]), description: g["description"].as_str().unwrap().into() }).collect()).collect();
-    let gen_rules = std::env::var("VERIF_RULEPOOL").ok().and_then(|p| std::fs::read_to_string(p).ok())
+    let pool: Vec<String> = std::env::var("VERIF_RULEPOOL").ok().map(|ps| ps.split(':').filter_map(|p| std::fs::read_to_string(p).ok()).collect::<Vec<_>>().join("\n"))
         .map(|s| s.lines().filter(|l| !l.trim().is_empty()).map(|l| l.to_string()).collect()).unwrap_or_default();
+    let gen_rules: Vec<String> = pool.iter().filter(|l| !l.contains('\t')).cloned().collect();
+    let gen_pairs: Vec<(String, String)> = pool.iter().filter_map(|l| l.split_once('\t').map(|(a, b)| (a.to_string(), b.to_string()))).collect();
     Corpus { test_rules: strs(&c["test_rules"]), test_words: strs(&c["test_words"]), ie, ie_words: strs(&c["ie_words"]),
-             ie_into: strs(&c["ie_alias"]["into"]), ie_from: strs(&c["ie_alias"]["from"]), gen_rules }
+             ie_into: strs(&c["ie_alias"]["into"]), ie_from: strs(&c["ie_alias"]["from"]), gen_rules, gen_pairs }
 }
 
 pub struct Intern { words: HashMap<String, i64>, errs: HashMap<String, i64> }
@@ -129,7 +132,7 @@ pub fn record(out: &str, n: usize, seed: u64) {
         let mut total_events = 0usize;
         let mut do_run = |ps: &[asca::Phrase], it: &mut Intern, calls: &mut Vec<Value>| {
             let input = ids_of(ps, it);
-            let rec = v::record(20_000_000, true, false, || v::run_loop(&rules, ps));
+            let rec = v::record(60_000, true, false, || v::run_loop(&rules, ps));
             let ret = match &rec.result {
                 Ok(Ok(res)) => json!({"ok": true, "out": ids_of(res, it)}),
                 Ok(Err(e)) => json!({"ok": false, "err": it.err(e)}),
@@ -149,7 +152,7 @@ pub fn record(out: &str, n: usize, seed: u64) {
         // the tracer on every line
         for p in &phrases {
             let input: Vec<i64> = p.iter().map(|w| it.word(w)).collect();
-            let rec = v::record(20_000_000, true, false, || v::trace_loop(&rules, p));
+            let rec = v::record(60_000, true, false, || v::trace_loop(&rules, p));
             let ret = match &rec.result {
                 Ok(Ok(ch)) => json!({"ok": true, "changes": ch.iter().map(|c| json!([c.rule_index, c.after.iter().map(|w| it.word(w)).collect::<Vec<_>>()])).collect::<Vec<_>>()}),
                 Ok(Err(e)) => json!({"ok": false, "err": it.err(e)}),
@@ -177,7 +180,7 @@ pub fn record(out: &str, n: usize, seed: u64) {
 
 fn run_keyed(groups: &[RuleGroup], lines: &[String], into: &[String]) -> Result<Vec<String>, String> {
     let (g, l, i) = (groups.to_vec(), lines.to_vec(), into.to_vec());
-    let rec = v::record(20_000_000, false, false, move || asca::run(&g, &l, &i, &[]));
+    let rec = v::record(30_000, false, false, move || asca::run(&g, &l, &i, &[]));
     match rec.result {
         Ok(Ok(v)) => Ok(v),
         Ok(Err(e)) => Err(err_key(&e)),
@@ -212,7 +215,16 @@ fn pick_rules(c: &Corpus, rng: &mut Rng, n: usize) -> (Vec<String>, Vec<String>,
         let pool = if !c.gen_rules.is_empty() && rng.chance(1, 2) { &c.gen_rules } else { &c.test_rules };
         rules.push(rng.pick(pool).clone());
     }
-    (rules, vec![], c.test_words.clone())
+    let mut words = c.test_words.clone();
+    if n >= 2 && !c.gen_pairs.is_empty() && rng.chance(1, 2) {
+        // an observer pair: the later rule reads what the earlier one wrote; on words of the generator's inventory
+        let (a, b) = rng.pick(&c.gen_pairs).clone();
+        let i = rng.below(n - 1);
+        let j = i + 1 + rng.below(n - 1 - i);
+        rules[i] = a; rules[j] = b;
+        words = (0..40).map(|_| crate::laws::gen_word_text(rng, true)).collect();
+    }
+    (rules, vec![], words)
 }
 
 pub fn replay_schedules() {
@@ -221,6 +233,7 @@ pub fn replay_schedules() {
     let seed = env_u64("VERIF_SEED", 1);
     let known: Vec<String> = std::env::var("VERIF_KNOWN").unwrap_or_default().split(',').map(|s| s.to_string()).collect();
     let mut sum = Summary::default();
+    let tabs = crate::tables::load();
     let mut nvec = 0u64;
     let kinds = std::env::var("VERIF_KINDS").unwrap_or("c10,c11,c16".into());
     if kinds.contains("c10") {
@@ -258,27 +271,24 @@ pub fn replay_schedules() {
                     let mono = run_keyed(&g1, &lines, &into);
                     let regrouped = run_keyed(&g2, &lines, &into);
                     let pre = run_keyed(&[RuleGroup::from_rules(rules[..k].to_vec())], &lines, &into);
-                    // guard of the property: the intermediate words are renderable, i.e. reading back their rendering gives the same words (C09's law)
-                    if pre.is_ok() {
+                    // guard of the property: the intermediate output is renderable (no replacement character) and not empty.
+                    // An intermediate word that does not read back as itself for a reason listed under C09's open findings is counted, not judged.
+                    if let Ok(mid) = &pre {
+                        if mid.iter().any(|s| s.contains('\u{FFFD}') || s.trim().is_empty()) { sum.count("c10_unrenderable_intermediate", 1); continue; }
                         let (r2, l2, i2) = (rules[..k].to_vec(), line.clone(), into.clone());
-                        let guard = v::record(20_000_000, false, false, move || -> Result<bool, asca::Error> {
+                        let tb = &tabs;
+                        let guard = v::record(30_000, false, false, move || -> Result<bool, asca::Error> {
                             let al = v::parse_aliases(&i2, &[])?;
                             let rs = v::parse_rules(&[RuleGroup::from_rules(r2)])?;
-                            let mut ok = true;
+                            let mut c09 = false;
                             for w in l2.split(' ') {
                                 let w0 = v::parse_word(w, &al)?;
-                                let mid = v::apply_structural(&rs, w0.clone())?.last().map(|s| s.word.clone()).unwrap_or(w0);
-                                let text = v::render_word(&mid, &v::no_aliases());
-                                ok &= match v::parse_word(&text, &v::no_aliases()) { Ok(back) => back == mid && !mid.syllables.is_empty(), Err(_) => false };
+                                let midw = v::apply_structural(&rs, w0.clone())?.last().map(|s| s.word.clone()).unwrap_or(w0);
+                                c09 |= crate::textrec::kf1_collides(&midw, tb) || crate::textrec::kf2_joins(&midw, tb);
                             }
-                            Ok(ok)
+                            Ok(c09)
                         });
-                        if !matches!(guard.result, Ok(Ok(true))) {
-                            sum.count("c10_intermediate_not_round_trippable", 1);
-                            let ex = sum.extra.entry("c10_guard_examples").or_insert(json!([]));
-                            if ex.as_array().unwrap().len() < 12 { ex.as_array_mut().unwrap().push(json!({"rules": rules[..k].to_vec(), "word": line, "intermediate": format!("{:?}", pre)})); }
-                            continue;
-                        }
+                        if matches!(guard.result, Ok(Ok(true))) { sum.count("c10_intermediate_hits_open_C09_finding", 1); continue; }
                     }
                     let staged = match &pre {
                         Ok(mid) if mid.iter().any(|s| s.contains('\u{FFFD}')) => { sum.count("c10_unrenderable_intermediate", 1); continue; }
@@ -357,9 +367,9 @@ pub fn replay_schedules() {
                     let kw = vec["k"].as_u64().unwrap() as usize;
                     let phrase = (0..kw).map(|_| rng.pick(&words).clone()).collect::<Vec<_>>().join(" ");
                     let (g, p, i) = (groups.clone(), phrase.clone(), into.clone());
-                    let rec = v::record(20_000_000, false, false, move || asca::trace_changes(&g, p, &i).map(|ch| ch.iter().map(|c| (c.rule_index, c.after.iter().map(|w| v::render_word(w, &v::no_aliases())).collect::<Vec<_>>().join(" "))).collect::<Vec<_>>()));
+                    let rec = v::record(30_000, false, false, move || asca::trace_changes(&g, p, &i).map(|ch| ch.iter().map(|c| (c.rule_index, c.after.iter().map(|w| v::render_word(w, &v::no_aliases())).collect::<Vec<_>>().join(" "))).collect::<Vec<_>>()));
                     let (g, p, i) = (groups.clone(), phrase.clone(), into.clone());
-                    let rec2 = v::record(20_000_000, false, false, move || asca::get_trace_string(&g, p, &i));
+                    let rec2 = v::record(30_000, false, false, move || asca::get_trace_string(&g, p, &i));
                     let runs: Vec<Result<Vec<String>, String>> = (0..=groups.len()).map(|m| run_keyed(&groups[..m], &[phrase.clone()], &into)).collect();
                     let full = runs.last().unwrap().clone();
                     let mut problems: Vec<String> = Vec::new();
